@@ -1,4 +1,5 @@
 import Crv.Proofs.Sched
+import Crv.Proofs.Skeleton
 import Crv.Generated.Sched
 /-!
 C15 — Refresh liveness. Theorems over the scheduling model `Crv.Sched` instantiated with the facts the
@@ -192,5 +193,10 @@ example : exec model (fun _ => 10) (fun _ => 0) [⟨0, true, 8, 1⟩, ⟨0, fals
 example : ∃ s', provision facts sched_addCrlUrlsFromConfig sched_addCrlFilesFromConfig (fun _ => true)
     { urls := [1, 2], files := [3], active := false } schedProvision {} = some s' ∧
     s'.inForce 1 = true ∧ s'.inForce 2 = true ∧ s'.inForce 3 = true := ⟨_, rfl, by decide, by decide, by decide⟩
+
+/-- The hand-written `Repo` model this property rests on was transcribed from exactly these sources: the fingerprints are
+recomputed from /repo on every run (tools/extract/skeleton.go), so any change to one of the functions breaks this obligation. -/
+theorem repo_sources_as_transcribed : Crv.Generated.skeletonRepo = Crv.Skeleton.expectedRepo :=
+  Crv.Skeleton.repo_sources_as_transcribed
 
 end Crv.Props.C15
